@@ -214,6 +214,14 @@ def set_dup_data(td, aliaser=None, limit: int = 40) -> List[Any]:
             return [{"k": x} for x in rec(t.v, depth + 1)]
         if isinstance(t, M.Obj):
             base = P.valid_samples(t)[0]
+            # the other set-typed fields hold two distinct items (inside the usual items-count bounds), so
+            # that the verdict depends on the field under variation
+            for g in t.fields:
+                u = g.t
+                while isinstance(u, (M.Ann, M.NewT, M.Opt)):
+                    u = u.t
+                if isinstance(u, M.Coll) and u.kind in SET_KINDS and M.ext_name(t, g, opts) in base:
+                    base[M.ext_name(t, g, opts)] = P.valid_samples(u.t)[:2]
             out = []
             for f in t.fields:
                 if f.flatten or f.pattern is not None or f.additional or not f.init:
